@@ -211,6 +211,7 @@ fn draw_text(p: &mut Prng, surface: Surface) -> String {
             s.n_in = s.n_in.min(2);
             s.n_out = s.n_out.min(2);
             s.utxos = false;
+            s.at_count_limit = 0;
             let n = p.u32();
             match crate::corpus::nth(crate::corpus::Kind::Pset, n) {
                 // one in six: a real PSET of the repository's vectors (the smaller ones), as base64 text
@@ -398,11 +399,13 @@ impl SurfaceWorld {
     fn pset_ops(&self, ctx: &mut Ctx, seed: u64) {
         let mut p = Prng::from_u64(seed);
         let mut sa = PsetSpec::draw_with_corpus(&mut p, 6);
+        sa.at_count_limit = 0;
         sa.utxos = p.coin();
         let a = psetgen::pset(&sa);
         self.pset_accessors(ctx, &a, 0);
         // merge with an unrelated, a related and an identical PSET
         let mut sb = if p.coin() { sa.clone() } else { PsetSpec::draw(&mut p) };
+        sb.at_count_limit = 0;
         if p.coin() {
             sb.seed = sa.seed;
         }
